@@ -41,7 +41,7 @@ func init() {
 		MinEvals:        floor(8000, 150000),
 		MinDistinct:     floor(2000, 40000),
 		RequiredCells: func(string) []string {
-			cells := []string{"purity/did/history", "purity/did/concurrent", "purity/did/churn-between-passes", "degenerate/fresh", "degenerate/after-printing-undefined-values", "rsa-shapes", "rsa-shapes/small-exponent", "rsa-shapes/odd-bit-length", "coerced-secp256k1/normal", "coerced-secp256k1/short-coordinate", "pairs/equal", "pairs/different", "alt/accepted-canonical", "alt/rejected-by-parse", "alt/rejected-by-pubkey", "string/rejected", "string/decorated", "multibase/other", "codec/unsupported", "varint/non-minimal"}
+			cells := []string{"purity/did/history", "purity/did/concurrent", "purity/did/churn-between-passes", "degenerate/fresh", "degenerate/after-printing-undefined-values", "rsa-shapes", "rsa-shapes/small-exponent", "rsa-shapes/odd-bit-length", "rsa-shapes/modulus-out-of-range", "coerced-secp256k1/normal", "coerced-secp256k1/short-coordinate", "pairs/equal", "pairs/different", "alt/accepted-canonical", "alt/rejected-by-parse", "alt/rejected-by-pubkey", "string/rejected", "string/decorated", "multibase/other", "codec/unsupported", "varint/non-minimal"}
 			for _, a := range []string{"ed25519", "secp256k1", "p256", "p384", "p521", "rsa2048", "rsa3072", "rsa4096", "rsa8192"} {
 				cells = append(cells, "roundtrip/"+a)
 			}
@@ -259,6 +259,10 @@ func c16Judge(w *mon.W, kind, s string, from *gen.Principal) {
 		w.Cover("alt/rejected-by-pubkey")
 		return
 	}
+	if k == nil {
+		w.Violate("pubkey-returns-neither-key-nor-error/"+kind, fmt.Sprintf("DID.PubKey() on parsed identifier %s (%s) returns (nil, nil)", mon.Trunc(s, 120), kind), c)
+		return
+	}
 	// a key can be extracted: the identifier must be the canonical one of that key
 	cd, err := did.FromPubKey(k)
 	if err != nil {
@@ -377,6 +381,27 @@ func runC16(w *mon.W) {
 					continue
 				}
 				keys = append(keys, &gen.Principal{Name: name, Alg: alg, Pub: pub, DID: d})
+			}
+		}
+	}
+
+	// RSA identifiers over well-formed PKCS#1 material whose modulus lies OUTSIDE what libp2p
+	// accepts (below 2048 bits, above 8192): parsed or not, key extraction yields a key or an error
+	{
+		for bi, bits := range []int{512, 1024, 2040, 2047, 8193, 8200, 16384} {
+			if !w.Mine(bi) {
+				continue
+			}
+			for _, e := range []int{3, 65537} {
+				n := new(big.Int).SetBytes(gen.Bytes(r, (bits+7)/8))
+				n.SetBit(n, bits-1, 1)
+				for b := n.BitLen() - 1; b >= bits; b-- {
+					n.SetBit(n, b, 0)
+				}
+				n.SetBit(n, 0, 1)
+				der := x509.MarshalPKCS1PublicKey(&rsa.PublicKey{N: n, E: e})
+				w.Cover("rsa-shapes/modulus-out-of-range")
+				c16Judge(w, fmt.Sprintf("rsa-modulus-%dbit", bits), didString(0x1205, der), nil)
 			}
 		}
 	}
